@@ -499,25 +499,26 @@ Fixpoint j_handle (p : list bstr) (v : jjv) (s : jstate) {struct v} : jstep :=
       end
   end.
 
+(* the members of the top-level object, in the order the parser delivers them *)
+Fixpoint j_top_members (l : list (bstr * jjv)) (s : jstate) : jstep :=
+  match l with
+  | [] => JOk s
+  | (k, x) :: rest =>
+      match j_entries [k] with
+      | [] => JErr s (EFront 22)
+      | _ => match j_handle [k] x s with
+             | JOk s' => j_top_members rest s'
+             | JErr s' e => JErr s' e
+             end
+      end
+  end.
+
 (* QPDFJob::initializeFromJson(json, partial) after JSON::parse: schema check, then the handler tree from the top-level object *)
 Definition front_json (partial : bool) (v : jjv) : fe_res :=
   if negb (check_schema [] v) then mk_fe_res [] ESchema else
   match v with
   | JJObj l =>
-      let r :=
-        (fix go (l : list (bstr * jjv)) (s : jstate) : jstep :=
-           match l with
-           | [] => JOk s
-           | (k, x) :: rest =>
-               match j_entries [k] with
-               | [] => JErr s (EFront 22)
-               | _ => match j_handle [k] x s with
-                      | JOk s' => go rest s'
-                      | JErr s' e => JErr s' e
-                      end
-               end
-           end) l (mk_jstate [] false []) in
-      match r with
+      match j_top_members l (mk_jstate [] false []) with
       | JOk s => if partial then mk_fe_res (rev' (j_calls s)) EFin
                  else mk_fe_res (rev' (CCall C_MAIN B"checkConfiguration" [] :: j_calls s)) EFin
       | JErr s e => mk_fe_res (rev' (j_calls s)) e
